@@ -126,10 +126,70 @@ def cls_kind(cls):
     return "M" if issubclass(cls, AbstractModule) else "V"
 
 
+DOCUMENTED_TAGS = ["KanR", "CamR", "CmR", "KnR", "AmpR", "SmR", "SpecR"]
+
+
+def find_resistance_fn():
+    """`find_resistance`, wherever the tree keeps it"""
+    import importlib
+    for mod in ("moclo.registry._utils", "moclo.registry.base", "moclo.registry.utils", "moclo.registry"):
+        try:
+            f = getattr(importlib.import_module(mod), "find_resistance", None)
+        except Exception:  # noqa
+            f = None
+        if f is not None:
+            return f
+    raise ImportError("find_resistance")
+
+
+def antibiotics():
+    """cassette tag -> antibiotic as the tree has it: the module-level table when it is there under its name,
+    otherwise read off `find_resistance` on the tags the library documents (a private table may be renamed)"""
+    try:
+        from moclo.registry._utils import _ANTIBIOTICS
+        return dict(_ANTIBIOTICS)
+    except Exception:  # noqa
+        pass
+    from Bio.SeqFeature import SeqFeature, SimpleLocation
+    fr = find_resistance_fn()
+    out = {}
+    for tag in DOCUMENTED_TAGS:
+        rec = SeqRecord(Seq("ACGTACGTAC"), id="res")
+        rec.features.append(SeqFeature(SimpleLocation(0, 5, 1), type="CDS", qualifiers={"label": [tag]}))
+        try:
+            out[tag] = fr(rec)
+        except Exception:  # noqa
+            pass
+    return out
+
+
+def isabstract(cls):
+    """`moclo._utils.isabstract` (a private helper: used when present, otherwise its documented meaning)"""
+    try:
+        from moclo._utils import isabstract as f
+        return f(cls)
+    except Exception:  # noqa
+        import inspect
+        return inspect.isabstract(cls) or any(getattr(cls, a, None) is NotImplemented for a in dir(cls))
+
+
+def _canon(pat):
+    import gen
+    try:
+        return gen.canon_pat(pat)
+    except Exception:  # noqa  (syntax the reader does not know: sent as it is, and reported by the model as bad-op)
+        return pat
+
+
+def structure_text(cls):
+    """the class's structure in the protocol's spelling"""
+    return _canon(cls.structure())
+
+
 def cls_fields(cls):
     """kind, pattern, site, off, k of a concrete class — read from the live class"""
     cut = cls.cutter
-    return [cls_kind(cls), cls.structure(), cut.site, str(cut.fst5 - len(cut.site)), str(abs(cut.ovhg))]
+    return [cls_kind(cls), structure_text(cls), cut.site, str(cut.fst5 - len(cut.site)), str(abs(cut.ovhg))]
 
 
 _generic_cache = {}
@@ -179,10 +239,9 @@ def line(op):
         return "\t".join(["SEARCH", w(pat), w(word), "1" if circ else "0", str(pos),
                           "-" if endpos is None else str(endpos)])
     if k == "FITS":
-        return "\t".join(["FITS", w(op[1]), w(op[2])])
+        return "\t".join(["FITS", w(_canon(op[1])), w(op[2])])
     if k == "RESIST":
-        from moclo.registry._utils import _ANTIBIOTICS
-        table = enc_list(",", ["{}:{}".format(str_code(a), str_code(b)) for a, b in _ANTIBIOTICS.items()])
+        table = enc_list(",", ["{}:{}".format(str_code(a), str_code(b)) for a, b in antibiotics().items()])
         feats = enc_list("|", [enc_list(",", [str_code(l) for l in labels]) for labels in op[1]])
         return "\t".join(["RESIST", table, feats])
     if k in ("ROT", "ROTL"):
@@ -206,7 +265,7 @@ def line(op):
         cut = cls.cutter
         if cut.is_3overhang():
             # the other branch of target_sequence / placeholder_sequence; geometry (site, off = fst3, k)
-            return "\t".join(["EVAL3", cls_kind(cls), cls.structure(), cut.site, str(cut.fst3), str(abs(cut.ovhg)),
+            return "\t".join(["EVAL3", cls_kind(cls), structure_text(cls), cut.site, str(cut.fst3), str(abs(cut.ovhg)),
                               w(word), enc_feats(feats)])
         return "\t".join(["EVAL"] + cls_fields(cls) + [w(word), enc_feats(feats)])
     if k == "GRAPH":
@@ -303,7 +362,7 @@ def run(op):
         return str(count_fits(op[1], op[2]))
     if k == "RESIST":
         from Bio.SeqFeature import SeqFeature, SimpleLocation
-        from moclo.registry._utils import find_resistance
+        find_resistance = find_resistance_fn()
         rec = SeqRecord(Seq("ACGTACGTAC"), id="res")
         for i, labels in enumerate(op[1]):
             q = {"label": list(labels)} if labels else {}
@@ -340,15 +399,17 @@ def run(op):
             cls = type("S", (base,), {"cutter": enz})
         else:
             cls = type("S", (boot.AbstractPart, base), {"cutter": enz, "signature": (up, down)})
-        return w(cls.structure())
+        return w(structure_text(cls))
     if k == "EVAL":
         _, cls, word, feats = op
         rec = mk_record(CRec(0, word, feats, []))
         ent = cls(rec)
         try:
-            m = ent._match
+            ent.overhang_start()          # public accessor: raises the documented errors on a record that is not valid
         except errors.InvalidSequence as e:
             return err_name(e)
+        # where the structure matched: the public matcher on the class's public structure (no private attribute)
+        m = DNARegex(cls.structure()).search(rec)
         ng = 3
         marks = [m.start()]
         for i in range(1, ng + 1):
